@@ -27,6 +27,21 @@ CHECKS = {
               'partial copy / partial append; mkstemp freshness; whole-list exactness is checked per output by final_okb, '
               'proved per destination (finalize_exact_partial); crash safety assumes no destination is a backup name of another.'),
         technique='Coq proof (guard invariant over the finalisation call list, induction over pending entries) + extracted call-site table + in-Coq correspondence with fault injection'),
+    'C12': dict(
+        category='proof',
+        text=('Coq theorems about a Gallina model of the Molecule editing API over a heap of live molecules: a '
+              'well-formedness invariant (unique keys, every interaction atom and bond endpoint present, valid max_node '
+              'cache, unique interaction types) is preserved by each of 14 operations and hence by every history '
+              '(induction over the operation list); an operation changes no molecule but its target (copy/subgraph '
+              'independence); a merge of well-formed molecules keeps all atoms/bonds/interactions of both, assigns fresh '
+              'distinct keys (freshness follows from the cache invariant), shifts resid/charge_group uniformly, and can only '
+              'fail on an nrexcl mismatch. Tie: random and directed histories run on the real Molecule/Block/MergeAllMolecules; '
+              'the state after every operation is compared with the model and evaluated by proved-sound checkers '
+              '(consistentb, merge_okb, frame) inside Coq.'),
+        design_ref='DESIGN.md section 5, C12',
+        note=('Trusted: Coq kernel + vm_compute; hand-written model (attributes reduced to resid/charge_group/tag, meta to '
+              'version); add_edge only on existing endpoints; log_entries not modelled; differential tie is sampling.'),
+        technique='Coq proof (invariant preserved by every operation, induction over histories; merge refinement to a loop-free spec) + in-Coq correspondence on operation histories'),
 }
 NOT_APPLICABLE = {}
 PENDING_REASON = 'not yet claimed: model and proofs for this property are still being built (see DESIGN.md staging); no check is registered so nothing is asserted'
